@@ -224,7 +224,7 @@ func (w *WorkerOut) noteCase(c *Case) {
 	if c.Conc != nil {
 		w.Strategies[strategyName(c.Conc.Strategy)]++
 		hm := c.Conc.HashMode
-		if hm == "collide" {
+		if hm == "collide" || hm == "split" {
 			hm += strconv.Itoa(c.Conc.CollideN)
 		}
 		if c.Conc.Hasher != "" && c.Conc.Hasher != "default" {
@@ -270,8 +270,8 @@ func runWorker(prop, tier string, base uint64, wi, nw, runs int, budget time.Dur
 			} else {
 				last, stuck = p, 0
 			}
-			if stuck >= 24 {
-				fmt.Fprintf(os.Stderr, "worker %d: run %d made no progress for 120 s (watchdog)\n", wi, p)
+			if stuck >= 120 {
+				fmt.Fprintf(os.Stderr, "worker %d: run %d made no progress for 600 s (watchdog)\n", wi, p)
 				os.Exit(3)
 			}
 		}
